@@ -14,3 +14,5 @@ mod c14_float;
 mod c01_addsub;
 #[cfg(kani)]
 mod c05_shift;
+#[cfg(kani)]
+mod c06_bits;
